@@ -623,7 +623,7 @@ func (a *Analyzer) assumeCall(ctx int, c *ssa.Call, truth bool, s *State) {
 			return
 		}
 		s.addLE(p.n.sub(x.n))
-		if str, ok := a.constObj[p.obj]; ok && !x.bytes && p.off.isConst() && p.n.isConst() && p.n.k <= 4 {
+		if str, ok := a.constObj[p.obj]; ok && !x.bytes && p.off.isConst() && p.n.isConst() && p.n.k <= 16 {
 			for i := int64(0); i < p.n.k; i++ {
 				b := str[p.off.k+i]
 				var off Lin
